@@ -8,6 +8,7 @@ import HidVerif.Hid.Fold
 import HidVerif.Hid.Lexer
 import HidVerif.Hid.ParseRender
 import HidVerif.Hid.TypecheckStmt
+import HidVerif.Hid.ExitModes
 open HidVerif HidVerif.Sphinx
 
 def bytesToLines (b : ByteArray) : List (List Char) := Id.run do
@@ -67,6 +68,34 @@ def renderLex (id : String) (src : List (List Nat)) : String :=
     | .eof c => s!"#eof {c.line}:{c.col}"
     | .error c => s!"#error {c.line}:{c.col}"
   "\n".intercalate ([s!"#case {id}"] ++ lines ++ [e])
+
+partial def toSkel : Hid.Sexp → Option Hid.Exit.Skel
+  | .list [.atom "other"] => some .other | .list [.atom "ret"] => some .ret | .list [.atom "brk"] => some .brk
+  | .list [.atom "cont"] => some .cont | .list [.atom "defeat"] => some .defeat | .list [.atom "term"] => some .term
+  | .list [.atom "defcall"] => some .defcall
+  | .list (.atom "block" :: .atom _ :: ss) => (ss.mapM toSkel).map .block
+  | .list [.atom "if", t, e] => do pure (.ifb (← toSkel t) (← toSkel e))
+  | .list [.atom "loop", .atom tc, b, k] => do pure (.loop (tc == "1") (← toSkel b) (← toSkel k))
+  | .list [.atom "try", b, h] => do pure (.tryb (← toSkel b) (← toSkel h))
+  | .list [.atom "preempt", b] => do pure (.preempt (← toSkel b))
+  | _ => none
+
+/-- every annotated block mode must equal the model's `modes`; also reports well-formedness -/
+partial def checkModes (sx : Hid.Sexp) : String :=
+  let rec walk (sx : Hid.Sexp) : List String :=
+    match sx with
+    | .list (.atom "block" :: .atom m :: ss) =>
+      let here := match toSkel sx with
+        | some sk => if toString (Hid.Exit.modes sk) == m then [] else [s!"block recorded {m} model {Hid.Exit.modes sk}"]
+        | none => ["unreadable"]
+      here ++ ss.flatMap walk
+    | .list (_ :: rest) => rest.flatMap walk
+    | _ => []
+  match toSkel sx with
+  | none => "unreadable"
+  | some sk =>
+    let bad := walk sx
+    if !Hid.Exit.wf sk then "not-wellformed" else if bad.isEmpty then "ok" else "mismatch " ++ "; ".intercalate bad
 
 partial def toCExpr : Hid.Sexp → Except String Hid.CExpr
   | .list [.atom "lit", .atom v] => match v.toInt? with | some i => .ok (.lit i) | none => .error "bad literal"
@@ -164,6 +193,14 @@ def main (argv : List String) : IO UInt32 := do
     let b ← IO.FS.readBinFile file
     let c : Case := { id := "vm", asm := bytesToLines b, args := args.map (fun a => a.toUTF8.data.toList.map (·.toNat)) }
     IO.println (runCase c)
+    return 0
+  | ["exitmodes", file] =>
+    -- one skeleton per line, blocks annotated with the mode the real typechecker recorded
+    let b ← IO.FS.readBinFile file
+    for l in bytesToLines b do
+      match Hid.Sexp.parse l with
+      | .error e => IO.println s!"error {e}"
+      | .ok sx => IO.println (checkModes sx)
     return 0
   | ["tc", file] => runTexts file (Hid.TC.frontEnd false)
   | ["tclint", file] => runTexts file (Hid.TC.frontEnd true)
